@@ -69,6 +69,7 @@ def run_case(i, rng, tier):
     n = rng.randint(1, 10)
     stream = S.gen_stream(rng, sp, n)
     reloaded = i % 3 == 2
+    pickled = i % 6 == 1  # a clone that went through pickle: equal, but none of its functions is the same object
     f = rng.choice(S.FACTORS_POS)
     g = rng.choice(S.FACTORS_POS)
     fneg = rng.choice(S.FACTORS_NONPOS)
@@ -82,6 +83,11 @@ def run_case(i, rng, tier):
 
     live = C.fill_all(S.build(sp), stream)
     h = Factory.fromJson(json.loads(json.dumps(live.toJson()))) if reloaded else live
+    if pickled:
+        import pickle
+
+        h = pickle.loads(pickle.dumps(live))
+        counters["pickled_operand"] = 1
     before = O.text(h)
 
     def obs(x):
@@ -199,7 +205,7 @@ def run_case(i, rng, tier):
 
     nt = C.nontrivial(sp, stream) and counters.get("refill_comparisons", 0) == 2 and counters.get("merged", 0) == 1
     return {
-        "digest": C.digest(sp, stream, S.jsonable(f), S.jsonable(g), reloaded),
+        "digest": C.digest(sp, stream, S.jsonable(f), S.jsonable(g), reloaded, pickled),
         "nontrivial": nt,
         "failures": failures[:4],
         "counters": counters,
@@ -229,7 +235,7 @@ def _transform_case(i, rng, tier):
 
 def conclusive(agg):
     out = []
-    for c in ("live_operand", "reloaded_operand", "refill_comparisons", "nonpositive_factor_checked", "laws_checked", "hashed", "serialised", "filled", "filled_numpy", "merged", "transform_refusals_checked"):
+    for c in ("live_operand", "reloaded_operand", "pickled_operand", "refill_comparisons", "nonpositive_factor_checked", "laws_checked", "hashed", "serialised", "filled", "filled_numpy", "merged", "transform_refusals_checked"):
         if not agg.counters.get(c):
             out.append("never exercised: " + c)
     miss = [k for k in S.ALL_KINDS if k not in agg.sets.get("kinds", ())]
